@@ -191,6 +191,25 @@ func ParseCoff(b []byte) *CoffFile {
 		f.Syms = append(f.Syms, s)
 		i += 1 + int(s.NAux)
 	}
+	// section symbols (static, value 0, named like their section): the auxiliary record repeats the section's length and counts
+	for _, s := range f.Syms {
+		if s.Class != 3 || s.Section < 1 || int(s.Section) > len(f.Secs) || s.NAux != 1 || len(s.Aux) < 18 {
+			continue
+		}
+		sec := f.Secs[s.Section-1]
+		if s.Name != sec.Name {
+			continue
+		}
+		if l := le.Uint32(s.Aux[0:]); l != sec.Size {
+			bad("auxiliary record of the section symbol %s says length %d, the section header says %d", s.Name, l, sec.Size)
+		}
+		if n := le.Uint16(s.Aux[4:]); uint32(n) != uint32(sec.NRel) {
+			bad("auxiliary record of the section symbol %s says %d relocations, the section header says %d", s.Name, n, sec.NRel)
+		}
+		if n := le.Uint16(s.Aux[6:]); n != 0 {
+			bad("auxiliary record of the section symbol %s says %d line numbers", s.Name, n)
+		}
+	}
 	return f
 }
 
